@@ -477,10 +477,13 @@ class AbsInt:
                        "::from_usize", "::from_i64", "::from_u16", "::from_f64", "::from_u64", "::from_i32", "::from_u32",
                        "::to_f64", "::to_usize", "::to_i64", "::branch", "::from_residual", "::enumerate", "::rev", "::take",
                        "::skip", "::zip", "::by_ref", "::as_mut", "::iter_mut", "::as_mut_slice", "Iterator::collect", "::into_boxed_slice", "::into_vec")):
-            if p.endswith(("::rev", "::take", "::skip")) and av and (av[0][0] in ("XV", "YV") or (isinstance(av[0][0], tuple) and av[0][0][0] in ("ZIP", "ENUM"))):
-                # re-aligning adaptors: element k of the result is no longer element k of the vector, so a later zip /
-                # index pairing with the other vector would pair different positions
+            if p.endswith(("::rev", "::skip")) and av and (av[0][0] in ("XV", "YV") or (isinstance(av[0][0], tuple) and av[0][0][0] == "ENUM")):
+                # re-aligning adaptors on ONE vector: element k of the result is no longer element k of the vector, so a later
+                # zip / index pairing with the other vector would pair different positions.  `take` keeps a prefix (positions
+                # unchanged), and any of the three applied to an already zipped stream keeps the pairs together.
                 return TOP
+            if p.endswith(("::take", "::skip")) and len(av) == 2:
+                return av[0]                                    # the count is not part of the stream's value
             v = BOT
             for x in av:
                 v = join(v, x)
